@@ -7,7 +7,7 @@
  *   Acquire/Release    written by the wrapped pthread_mutex_lock/unlock for libcoap's global lock, WHILE the mutex is held
  * A watchdog turns "no progress for a while" into a Stall event listing the threads stuck inside a call.
  *
- * usage: drv_lock <out.ndjson> <nthreads 2..8> <ms to run> <seed> [with_resources 0|1] [keepalive seconds, 0 = off]
+ * usage: drv_lock <out.ndjson> <nthreads 2..8> <ms to run> <seed> [with_resources 0|1] [keepalive seconds, 0 = off] [signals 0|1: SIGUSR1 to the I/O thread every 0.7 ms]
  *   keepalive: an extra, otherwise idle client session is pinged by the I/O loop; the server's RST reaches the pong handler
  */
 #include <coap3/coap_libcoap_build.h>
@@ -129,9 +129,28 @@ static void h_pong(coap_session_t *s, const coap_pdu_t *rcv, const coap_mid_t mi
   logev(E_CBEXIT, 5);
 }
 
+/* signals: the I/O thread's wait is interrupted every now and then (EINTR), as any application with signal handlers sees it */
+#include <signal.h>
+static int with_signals;
+static pthread_t io_tid;
+static atomic_int io_running;
+static void on_usr1(int sig) { (void)sig; }
+static void *signaller(void *arg) {
+  struct timespec t = {0, 700000};
+  (void)arg;
+  me = 14;
+  while (!atomic_load(&stop_flag)) {
+    nanosleep(&t, NULL);
+    if (atomic_load(&io_running)) pthread_kill(io_tid, SIGUSR1);
+  }
+  return NULL;
+}
+
 static void *io_thread(void *arg) {
   me = 0;
   (void)arg;
+  io_tid = pthread_self();
+  atomic_store(&io_running, 1);
   while (!atomic_load(&stop_flag)) {
     int r;
     API(0, r = coap_io_process(ctx, 20));
@@ -177,7 +196,7 @@ static void *worker(void *arg) {
       if (nr) {
         coap_register_request_handler(nr, COAP_REQUEST_GET, h_get);
         API(6, coap_add_resource(ctx, nr));
-        API(7, coap_delete_resource(ctx, nr));
+        API(7, coap_delete_resource((k & 1) ? NULL : ctx, nr));      /* the context argument is documented as ignored */
       }
     } else if (r < 85) {
       coap_cache_key_t *ck = NULL;
@@ -198,8 +217,38 @@ static void *worker(void *arg) {
       (void)m;
     }
     if ((k & 15) == 0) usleep(200);
+    if (with_signals) usleep(500);        /* leave the I/O thread time to block in its wait: that is where a signal interrupts it */
   }
   return NULL;
+}
+
+/* the events so far, in order */
+static FILE *write_events(const char *path, int nthr) {
+  FILE *out = fopen(path, "w");
+  unsigned n, k;
+  if (!out) return NULL;
+  n = atomic_load(&nev);
+  if (n > MAXEV) n = MAXEV;
+  fprintf(out, "{\"e\":\"Reset\",\"threads\":%d,\"supported\":%d,\"events\":%u}\n", nthr, coap_threadsafe_is_supported(), n);
+  for (k = 0; k < n; k++) {
+    evt_t *e = &evs[k];
+    if (e->kind == 0) break;             /* a slot claimed but not yet written when the process died */
+    if (e->kind == E_APIENTER || e->kind == E_APIEXIT)
+      fprintf(out, "{\"e\":\"%s\",\"thr\":%d,\"api\":\"%s\"}\n", KN[e->kind], e->thr, APIS[e->what]);
+    else if (e->kind == E_CBENTER || e->kind == E_CBEXIT)
+      fprintf(out, "{\"e\":\"%s\",\"thr\":%d,\"cb\":\"%s\"}\n", KN[e->kind], e->thr, CBS[e->what]);
+    else
+      fprintf(out, "{\"e\":\"%s\",\"thr\":%d}\n", KN[e->kind], e->thr);
+  }
+  return out;
+}
+/* a sanitizer report ends the process: what was recorded up to there is still worth judging */
+void __sanitizer_set_death_callback(void (*cb)(void));
+static const char *trace_path;
+static int trace_nthr;
+static void on_death(void) {
+  FILE *out = write_events(trace_path, trace_nthr);
+  if (out) { fprintf(out, "{\"e\":\"End\",\"stalled\":false,\"died\":true}\n"); fclose(out); }
 }
 
 int main(int argc, char **argv) {
@@ -213,6 +262,7 @@ int main(int argc, char **argv) {
   int quiet = 0;
   if (argc < 2) return 2;
   with_resources = argc > 5 ? atoi(argv[5]) : 0;
+  with_signals = argc > 7 ? atoi(argv[7]) : 0;
   if (nthr < 1) nthr = 1;
   if (nthr > 8) nthr = 8;
   evs = calloc(MAXEV, sizeof(evt_t));
@@ -267,7 +317,16 @@ int main(int argc, char **argv) {
     coap_send(csess[0], pdu);
   }
   atomic_store(&nev, 0);
+  if (with_signals) {
+    struct sigaction sa;
+    memset(&sa, 0, sizeof(sa));
+    sa.sa_handler = on_usr1;            /* no SA_RESTART: blocking calls return EINTR */
+    sigaction(SIGUSR1, &sa, NULL);
+  }
+  trace_path = argv[1]; trace_nthr = nthr;
+  __sanitizer_set_death_callback(on_death);
   pthread_create(&io, NULL, io_thread, NULL);
+  if (with_signals) { pthread_t sg; pthread_create(&sg, NULL, signaller, NULL); pthread_detach(sg); }
   for (i = 0; i < nthr; i++) pthread_create(&th[i], NULL, worker, (void *)(uintptr_t)(i + 1));
   /* watchdog */
   for (k = 0; k < (unsigned)ms / 50 + 200; k++) {
@@ -290,20 +349,8 @@ int main(int argc, char **argv) {
     if (quiet > 60) { stalled = 1; break; }          /* 3 s without any event from any thread */
   }
   atomic_store(&stop_flag, 1);
-  out = fopen(argv[1], "w");
+  out = write_events(argv[1], nthr);
   if (!out) return 2;
-  n = atomic_load(&nev);
-  if (n > MAXEV) n = MAXEV;
-  fprintf(out, "{\"e\":\"Reset\",\"threads\":%d,\"supported\":%d,\"events\":%u}\n", nthr, coap_threadsafe_is_supported(), n);
-  for (k = 0; k < n; k++) {
-    evt_t *e = &evs[k];
-    if (e->kind == E_APIENTER || e->kind == E_APIEXIT)
-      fprintf(out, "{\"e\":\"%s\",\"thr\":%d,\"api\":\"%s\"}\n", KN[e->kind], e->thr, APIS[e->what]);
-    else if (e->kind == E_CBENTER || e->kind == E_CBEXIT)
-      fprintf(out, "{\"e\":\"%s\",\"thr\":%d,\"cb\":\"%s\"}\n", KN[e->kind], e->thr, CBS[e->what]);
-    else
-      fprintf(out, "{\"e\":\"%s\",\"thr\":%d}\n", KN[e->kind], e->thr);
-  }
   if (stalled) {
     fprintf(out, "{\"e\":\"Stall\",\"stuck\":[");
     for (i = 0, k = 0; i <= nthr; i++)
